@@ -158,6 +158,24 @@ func (e *Engine) checkAll(s *Sys, class string) *Violation {
 }
 
 func (e *Engine) checkAllRaw(s *Sys) *Violation {
+	v := e.checkAllRaw0(s)
+	if v != nil && s.Name == "primary" && (e.P.Profile == "C05" || e.P.Profile == "C06") && v.Class != "target-census-missing" {
+		// A run ends at its first mismatch, and the full comparison looks at entities, counts and Stats() before it looks
+		// at relation filters. When the relation properties are being checked, their own oracle (per target: the relation
+		// filter selects exactly the model's children) gives its opinion on this very state as well.
+		func() {
+			defer func() { recover() }()
+			if v2 := e.census(s); v2 != nil {
+				v.Also = append(v.Also, v2.Class)
+				v.Also = append(v.Also, v2.Also...)
+				v.Msg += "; at the same instant: " + v2.Msg
+			}
+		}()
+	}
+	return v
+}
+
+func (e *Engine) checkAllRaw0(s *Sys) *Violation {
 	w := s.W
 	m := e.M
 	if s.Name == "load" {
